@@ -10,7 +10,7 @@
    (C15_Qc_ordered_field). *)
 From Coq Require Import ZArith List Bool Lia Field QArith Qcanon.
 From IBL.C08 Require Model.
-From IBL.C15 Require Import Model Proofs Geo Run.
+From IBL.C15 Require Import Model Proofs Geo Med Run.
 Import ListNotations.
 Open Scope Z_scope.
 
@@ -270,6 +270,18 @@ Proof.
   split; [now apply Z.eqb_eq|]. apply negb_true_iff, Z.eqb_neq in Hb. exact Hb.
 Qed.
 Print Assumptions C15_np24_shanks_coincide.
+
+(* 13. The median entry exists: for a window of 2h+1 entries `median` returns an entry of the window with at
+   most h entries strictly below and at most h strictly above it (the k-th order statistic exists in every
+   finite list of a total order); with theorem 8 this determines its value. *)
+Theorem C15_median_exists :
+  forall (F : Type) (O : ops F), ordered_field O ->
+  forall (h : nat) (l : list F), length l = (2 * h + 1)%nat ->
+  In (median O h l) l /\ is_median O h (median O h l) l = true.
+Proof.
+  intros F O [_ [H2 [H3 [H4 _]]]] h l. exact (median_exists F O H2 H3 H4 h l).
+Qed.
+Print Assumptions C15_median_exists.
 
 (* ---------------------------------------------------------------------- *)
 (* The hypotheses are satisfiable on concrete, non-trivial inputs.           *)
